@@ -42,8 +42,32 @@ class WhereError(Exception):
     pass
 
 
+_MONGO = {"$gt": lambda a, b: a > b, "$gte": lambda a, b: a >= b, "$lt": lambda a, b: a < b, "$lte": lambda a, b: a <= b,
+          "$ne": lambda a, b: a != b, "$eq": lambda a, b: a == b}
+
+
 def eval_where(docs, cond):
+    """Both syntaxes the API documents: python-like expressions joined by ` and `, and a MongoDB-style JSON object."""
     items = list(docs)
+    if cond.strip().startswith("{"):
+        import json as _json
+        try:
+            spec = _json.loads(cond)
+        except ValueError:
+            raise WhereError(cond)
+        if not isinstance(spec, dict):
+            raise WhereError(cond)
+        for f, want in spec.items():
+            if f not in ("kWhDelivered", "userID", "sessionID", "_id"):
+                raise WhereError(cond)
+            if isinstance(want, dict):
+                for op, x in want.items():
+                    if op not in _MONGO:
+                        raise WhereError(cond)
+                    items = [d for d in items if d.get(f) is not None and _MONGO[op](d.get(f), x)]
+            else:
+                items = [d for d in items if d.get(f) == want]
+        return items
     for clause in cond.split(" and "):
         clause = clause.strip()
         if not clause:
@@ -68,6 +92,9 @@ def eval_where(docs, cond):
                 items = [d for d in items if d["kWhDelivered"] >= x]
             else:
                 raise WhereError(clause)
+        elif f in ("userID", "sessionID") and op in ("==", "!=") and len(val) >= 2 and val[0] == val[-1] == '"':
+            x = val[1:-1]
+            items = [d for d in items if (d.get(f) == x) == (op == "==")]
         else:
             raise WhereError(clause)
     return items
